@@ -203,7 +203,7 @@ def check_sequence(ctx, case):
 def run(ctx):
     rnd = ctx.rnd
     for i in range(ctx.n(1500, 30000)):
-        if ctx.expired():
+        if ctx.expired(0.3):
             break
         n = rnd.randint(2, 5)
         m = rnd.randint(1, n)
